@@ -9,9 +9,9 @@ from common import Result, log
 
 TIERS = {
     # ACC_T, MaxN, Rich, AccGrid, BigN, DenseGrid, chunks
-    "quick": dict(acc_t=40, maxn=2, rich="FALSE", grid="{0, 13, 39, 40}", bign=5,
+    "quick": dict(acc_t=40, maxn=2, rich="FALSE", grid="{0, 13, 39, 40}", bign=9,
                   dense="{0, 1, 9, 17, 20, 27, 33, 38, 39, 40}", chunks=6),
-    "thorough": dict(acc_t=200, maxn=3, rich="TRUE", grid="{0, 1, 67, 133, 180, 199, 200}", bign=8,
+    "thorough": dict(acc_t=200, maxn=3, rich="TRUE", grid="{0, 1, 67, 133, 180, 199, 200}", bign=10,
                      dense="{%s}" % ", ".join(str(i) for i in range(0, 201, 5)), chunks=14),
 }
 
